@@ -2,8 +2,9 @@ package c05
 
 // C05 — `git lfs prune` never deletes an object that is still needed or not yet pushed.
 //
-// E2E exploration on the real git-lfs binary: five exhaustive products (structural, dates, configuration, filters =
-// lfs.fetchinclude x lfs.fetchexclude, remotes = two remotes with their own LFS servers x lfs.pruneremotetocheck) of
+// E2E exploration on the real git-lfs binary: six exhaustive products (structural, dates, configuration, filters =
+// lfs.fetchinclude x lfs.fetchexclude, remotes = two remotes with their own LFS servers x lfs.pruneremotetocheck,
+// refkinds = which kind of ref makes a commit a recent ref x lfs.fetchrecentremoterefs) of
 // tiny real repositories x flags x retention windows x server states; oracle = reference retention set computed by
 // git plumbing (c05_model_verif_test.go).  One execution = one `git lfs prune` run, a deterministic function of
 // the choice vector.
@@ -129,6 +130,9 @@ func c05Deviations(spec worldSpec, p caseParams) []deviation {
 			ds = append(ds, deviation{"default-remote:" + c05Tracks[t].Name, func(s *worldSpec, q *caseParams) { q.Track = t }})
 		}
 	}
+	if p.NoRR {
+		ds = append(ds, deviation{"fetchrecentremoterefs=false", func(s *worldSpec, q *caseParams) { q.NoRR = true }})
+	}
 	return ds
 }
 
@@ -153,7 +157,7 @@ func c05Causes(spec worldSpec, p caseParams, o *evalOut) (map[rawViol]string, st
 	halting := p.Verify == 1 || p.Verify == 3
 	variant1 := func(sel []deviation, noVerify bool) (map[[2]string]bool, string) {
 		s, q := spec, p
-		s.Attr, q.Cfgs, q.Exc, q.Inc, q.PR, q.Track = 0, nil, "", "", 0, 0
+		s.Attr, q.Cfgs, q.Exc, q.Inc, q.PR, q.Track, q.NoRR = 0, nil, "", "", 0, 0, false
 		if noVerify {
 			q.Verify, q.Server, q.Hold = 0, 0, 0
 		}
@@ -287,6 +291,16 @@ func c05Case(spec worldSpec, p caseParams, confirm bool) vx.Result {
 		srv = "prune-remote=" + p.pruneRemote() + ",servers=" + c05Holds[p.Hold]
 	}
 	r.Outcome = fmt.Sprintf("%s|%s|exit%d|deleted%d|kept-only-by:%s", strings.Join(p.args()[1:], " "), srv, o.Code, nd, strings.Join(sole, ","))
+	if spec.Ref != "" {
+		// product refkinds: what became of the version of the file that only the ref under examination names
+		fate := "kept"
+		for _, n := range names(o.Deleted) {
+			if n == "a3" {
+				fate = "deleted"
+			}
+		}
+		r.Outcome += "|ref=" + spec.Ref + ":named-version-" + fate
+	}
 	dem := wd.facts.demands(p)
 	demanded := map[string][]string{}
 	for oid, ds := range dem {
@@ -301,8 +315,8 @@ func c05Case(spec worldSpec, p caseParams, confirm bool) vx.Result {
 			part = append(part, n+"="+strings.Join(cl, ","))
 		}
 		sort.Strings(part)
-		r.NonTrivial = []string{fmt.Sprintf("%016x", vx.Hash64(spec.Hist, spec.Head, spec.Push, spec.Local, fmt.Sprint(spec.Attr, spec.Flavor),
-			fmt.Sprint(p.Mode, p.Dry, p.Verify, p.Server, p.Exc, p.Cfgs, p.Inc, p.Two, p.PR, p.Track, p.Hold), strings.Join(part, ";")))}
+		r.NonTrivial = []string{fmt.Sprintf("%016x", vx.Hash64(spec.Hist, spec.Head, spec.Push, spec.Local, fmt.Sprint(spec.Attr, spec.Flavor, spec.Ref),
+			fmt.Sprint(p.Mode, p.Dry, p.Verify, p.Server, p.Exc, p.Cfgs, p.Inc, p.Two, p.PR, p.Track, p.Hold, p.NoRR), strings.Join(part, ";")))}
 	}
 	var store []string
 	for oid := range gitx.StoreOids(wd.lfsdir) {
@@ -361,7 +375,7 @@ func c05Case(spec worldSpec, p caseParams, confirm bool) vx.Result {
 }
 
 // ---------------------------------------------------------------------------------------------
-// the three products
+// the products
 
 type product struct {
 	name   string
@@ -381,6 +395,15 @@ func c05Stride() int {
 
 func c05Thin(ws []worldSpec) []worldSpec {
 	n := c05Stride()
+	if h := os.Getenv("VERIF_C05_HIST"); h != "" { // development aid like the stride: only the worlds of one history shape
+		var r []worldSpec
+		for _, w := range ws {
+			if w.Hist == h {
+				r = append(r, w)
+			}
+		}
+		ws = r
+	}
 	if n == 1 {
 		return ws
 	}
@@ -630,7 +653,60 @@ func c05Products(thorough bool) []product {
 			}
 			return worldsR[x.In(len(worldsR))], p
 		}}
-	return []product{structural, dates, config, filters, remotes}
+
+	// ---- refkinds: which kind of ref makes a commit a recent ref.  History KR: c1 (30 d, lightweight tag `old`) - c1b (K+1 d)
+	// - c2 (K d) - c3 (K3 d; main, origin/main, HEAD), every commit replaces the file, everything is pushed; exactly one ref of
+	// the enumerated kind names c2, so that c2's version of the file is retained by that ref or not at all.
+	kindsK := []string{"none", "local", "remote", "tag", "annotated-tag"}
+	agesK := [][2]int{{2, 0}, {5, 0}} // (K, K3)
+	winK0 := []window{{7, 0, 3}, {3, 0, 0}, {0, 0, 3}}
+	winK40 := winK0
+	flagsK := []flagSet{{0, false, 0}}
+	if thorough {
+		kindsK = c05RefKinds
+		// K3 = 40: the tip of main is OLDER than the commit c2 behind it (non-monotonic dates): main and origin/main are
+		// not recent refs, the ref at c2 is; only with commitsdays = 0 (the recent-commits model assumes monotonic dates)
+		agesK = [][2]int{{2, 0}, {5, 0}, {12, 0}, {2, 40}, {5, 40}, {12, 40}}
+		winK0, winK40 = nil, nil
+		for _, r := range []int{0, 3, 7} {
+			for _, o := range []int{0, 3} {
+				winK40 = append(winK40, window{r, 0, o})
+				for _, c := range []int{0, 3} {
+					winK0 = append(winK0, window{r, c, o})
+				}
+			}
+		}
+		flagsK = []flagSet{{0, false, 0}, {1, false, 0}}
+	}
+	var worldsK []worldSpec
+	for _, a := range agesK {
+		for _, k := range kindsK {
+			worldsK = append(worldsK, worldSpec{Hist: "KR", Head: "main", Push: "full", Local: "none", Ref: k, Ages: []int{30, a[0] + 1, a[0], a[1]}})
+		}
+	}
+	worldsK = c05Thin(worldsK)
+	refkinds := product{name: "refkinds", bounds: map[string]interface{}{"worlds": len(worldsK), "ref_kinds": kindsK, "ages_days_of_the_named_commit_and_of_the_branch_tip": fmt.Sprint(agesK),
+		"fetchrecentremoterefs": "{unset (= true), false}", "windows_tip_not_older": fmt.Sprint(winK0), "windows_tip_older": fmt.Sprint(winK40), "flag_sets": "none (thorough: + --recent with lfs.fetchrecentremoterefs unset)",
+		"history":          "c1 (30 d, lightweight tag old) - c1b (K+1 d) - c2 (K d, the ref under examination) - c3 (K3 d; main = origin/main = HEAD); an annotated tag carries the date of c2",
+		"ref_kind_meaning": "none; local = refs/heads/rec; remote = refs/remotes/origin/rec made by a real push, no local branch; tag = lightweight refs/tags/rt; annotated-tag = refs/tags/rt -> tag object -> c2; other = refs/pull/1/head (thorough; nothing demanded)"},
+		decode: func(x *vx.X) (worldSpec, caseParams) {
+			w := worldsK[x.In(len(worldsK))]
+			wins := winK0
+			if w.Ages[3] > w.Ages[2] {
+				wins = winK40
+			}
+			wi := wins[x.In(len(wins))]
+			p := caseParams{R: wi.R, C: wi.C, O: wi.O}
+			p.NoRR = x.In(2) == 1
+			fl := flagsK
+			if p.NoRR {
+				fl = flagsK[:1] // --recent gives every recent ref up: crossed with the default lfs.fetchrecentremoterefs only
+			}
+			f := fl[x.In(len(fl))]
+			p.Mode, p.Dry, p.Verify = f.Mode, f.Dry, f.Verify
+			return w, p
+		}}
+	return []product{structural, dates, config, filters, remotes, refkinds}
 }
 
 func TestVerifC05(t *testing.T) {
@@ -646,13 +722,15 @@ func TestVerifC05(t *testing.T) {
 		c.Tier = rf.Tier // the choice vector is relative to the bounds of the tier that produced it
 	}
 	prods := c05Products(c.Thorough())
-	c.Rule = "five exhaustive products, one real `git lfs prune` per case: (structural) history shape x HEAD position x push state x stash/worktree/index state x date profile " +
+	c.Rule = "six exhaustive products, one real `git lfs prune` per case: (structural) history shape x HEAD position x push state x stash/worktree/index state x date profile " +
 		"x flag set x server state x window; (dates) every parent-not-newer age vector over the stated day set x every (refsdays,commitsdays,offsetdays) window; " +
 		"(config) rich worlds holding one object per retention class x attribute spelling x ambient git config (none, singles; thorough: pairs) x flags x fetchexclude; " +
 		"(filters) rich worlds with LFS files in a directory and in the root, one object per retention class x lfs.fetchinclude pattern x lfs.fetchexclude pattern (unset, everything, one directory, one file by path, one file name) x flags incl. --verify-remote halting/continuing; " +
-		"(remotes) remotes origin and upstream with their own push states and their own LFS servers x lfs.pruneremotetocheck {unset, origin, upstream} x default-remote setting x flags x which server holds which prunable candidate (uniform: both / origin only / upstream only / neither; rotations over the candidates). " +
+		"(remotes) remotes origin and upstream with their own push states and their own LFS servers x lfs.pruneremotetocheck {unset, origin, upstream} x default-remote setting x flags x which server holds which prunable candidate (uniform: both / origin only / upstream only / neither; rotations over the candidates); " +
+		"(refkinds) a pushed linear history whose middle commit c2 is named by exactly one ref of the enumerated kind (none, local branch, remote-tracking branch made by a real push, lightweight tag, annotated tag dated like c2; thorough: + refs/pull/1/head) " +
+		"x age of c2 (inside / outside the window; thorough: also a branch tip OLDER than c2) x lfs.fetchrecentremoterefs {unset, false} x (refsdays, commitsdays, offsetdays) window (thorough: x {none, --recent}). " +
 		"A case is non-trivial when the local store holds at least one object the model requires to survive and at least one it does not; two cases are the same retention problem (counted once in distinct_nontrivial) " +
-		"when they agree on history shape/HEAD/push/local state/attribute spelling, flags, server state(s), ambient config, fetchexclude, fetchinclude, prune remote, default-remote setting and on the set of clauses protecting each object (so dates and windows only count through the partition they induce)"
+		"when they agree on history shape/HEAD/push/local state/attribute spelling, ref kind, flags, server state(s), ambient config, fetchexclude, fetchinclude, prune remote, default-remote setting, lfs.fetchrecentremoterefs and on the set of clauses protecting each object (so dates and windows only count through the partition they induce)"
 	c.Assumptions = []string{
 		"commit dates are now-(k days+12h-slot hours), so every comparison with a day-granular window is >= 6 h away from its boundary; parents are never newer than children",
 		"--force is read as documented: it gives up the objects of checked-out refs (HEAD trees, index entries identical to HEAD) and implies --recent; stashes, staged changes and unpushed objects stay required",
@@ -663,7 +741,8 @@ func TestVerifC05(t *testing.T) {
 		"an object counts as unpushed when a commit reachable from a local branch/tag but not from refs/remotes/<prune remote>/* references it and no commit reachable from refs/remotes/<prune remote>/* does; a prune remote without remote-tracking refs makes everything reachable from local branches/tags unpushed",
 		"with --verify-remote 'the remote' is the LFS endpoint of the prune remote (remote.<name>.lfsurl in the two-remote product, lfs.url elsewhere); what the other remote's server holds is irrelevant",
 		"a stash protects what its WIP/index/untracked commits add on top of the stash's base commit",
-		"recent ref = local or remote-tracking branch whose tip is younger than refsdays+offsetdays (refsdays>0); recent commit = ancestor of HEAD or of a recent ref, younger than that tip minus (commitsdays+offsetdays) (commitsdays>0)",
+		"recent ref (git-lfs-config(5) lfs.fetchrecentrefsdays: 'refs which have commits within N days of the current date. Only local refs are included unless lfs.fetchrecentremoterefs is true'; git-lfs-prune(1): N = refsdays+offsetdays, refsdays>0) = a local branch, a tag, or - unless lfs.fetchrecentremoterefs=false - a remote-tracking branch, whose commit is younger than N days (the date of a ref is the commit date of the commit it names, also when the branch tip in front of it is older); an annotated tag is demanded only when the tag's own date is inside the window too; nothing is demanded for refs outside refs/heads, refs/tags, refs/remotes (the documentation is silent; refs/pull/1/head is enumerated and only observed)",
+		"recent commit = ancestor of HEAD or of a recent ref, younger than that tip minus (commitsdays+offsetdays) (commitsdays>0); worlds whose dates are not monotonic (product refkinds, tip older than the named commit) are run with commitsdays=0 only",
 		"remote refs are updated by real `git push` with GIT_LFS_SKIP_PUSH=1; what the LFS server holds is chosen by the harness (fakelfs)",
 	}
 	for _, p := range prods {
@@ -694,10 +773,10 @@ func TestVerifC05(t *testing.T) {
 		os.Exit(2)
 	}
 	deadline := c.DeadlineAfter(300*time.Second, 22*time.Minute)
-	// the three products run side by side, sharing the cores roughly in proportion to their size
-	share := map[string]int{"structural": 12, "dates": 6, "config": 6, "filters": 3, "remotes": 5}
+	// the products run side by side, sharing the cores roughly in proportion to their size
+	share := map[string]int{"structural": 12, "dates": 6, "config": 6, "filters": 3, "remotes": 5, "refkinds": 2}
 	if c.Thorough() {
-		share = map[string]int{"structural": 13, "dates": 7, "config": 4, "filters": 3, "remotes": 5}
+		share = map[string]int{"structural": 13, "dates": 7, "config": 4, "filters": 3, "remotes": 5, "refkinds": 3}
 	}
 	var parts []vx.Part
 	var wg sync.WaitGroup
@@ -716,8 +795,8 @@ func TestVerifC05(t *testing.T) {
 		go func() { defer wg.Done(); e.ExploreInto(st) }()
 	}
 	wg.Wait()
-	if c05Stride() > 1 {
-		c.Bounds["development_stride"] = c05Stride()
+	if c05Stride() > 1 || os.Getenv("VERIF_C05_HIST") != "" {
+		c.Bounds["development_stride"] = fmt.Sprint(c05Stride(), " ", os.Getenv("VERIF_C05_HIST"))
 		for _, pt := range parts {
 			pt.Stats.Exhaustive = false
 			pt.Stats.CapHit = "VERIF_C05_STRIDE"
